@@ -48,6 +48,8 @@ template <class C>
 struct CmpTagOf { static const int value = 0; };
 template <int Tag, bool Tr>
 struct CmpTagOf<SimCmpT<Tag, Tr>> { static const int value = Tag; };
+template <int Tag>
+struct CmpTagOf<SimCmpSelfT<Tag>> { static const int value = Tag; };
 
 template <class C>
 struct IsTransparentCmp : std::false_type {};
